@@ -1,7 +1,7 @@
 SPECIFICATION Spec
 CONSTANTS
   MaxMembers = 2
-  Items = {"none", "ren", "expr", "renexpr", "at", "astype", "astyperen", "ghostd", "gowned", "gref"}
+  Items = {"none", "ren", "ded", "expr", "renexpr", "at", "astype", "astyperen", "ghostd", "gowned", "gref"}
   Shapes = {"named", "tuple", "unit"}
   Forms = {"same", "struct", "tuple", "bare", "unit"}
   SGs = {0, 1}
